@@ -143,7 +143,7 @@ def dict_to_paths(root, d):
 
 
 def _assoc_leaf_update(inverse, path, value, multi_updates):
-    '''Insert the non-dictionary update ``value`` at ``path``.
+    '''Insert the update ``value`` at ``path``.
 
     If an update is already present at ``path`` (from another port
     variable wired to the same node) and ``multi_updates`` is set, keep
@@ -233,7 +233,14 @@ def inverse_topology(outer, update, topology, inverse=None, multi_updates=True):
                 inner = normalize_path(outer + path)
                 # (an update that names its own updater is one value for
                 # the variable, not a dictionary of sub-updates)
-                if isinstance(value, dict) and '_updater' not in value:
+                if multi_updates and inner:
+                    # merged from the node's parent: an update another
+                    # port already sent to this node that is one value
+                    # (it names its own updater, or is a collected
+                    # '_multi_update' list) stays one value
+                    inverse = _assoc_leaf_update(
+                        inverse, inner, value, multi_updates)
+                elif isinstance(value, dict) and '_updater' not in value:
                     if multi_updates:
                         inverse = update_in(
                             inverse,
